@@ -234,6 +234,15 @@ def r5(ctx):
               sites=[sp for _, _, sp in cs], got=owners, key="shared")
 
 
+def r8(ctx):
+    """'never left at a value computed from an older price': the price the estimate is marked at comes from the default market
+    data state, which must keep the NEWEST trade / quote - stored with its exchange time, replaced exactly when newer (= C09.R2);
+    and the pro-rata exit-fee share divides by the peak size the opening fill set (|quantity|, shared constructor table)"""
+    from rules import C09
+    C09.r2(ctx)
+    common.position_from_trade(ctx)
+
+
 def r6(ctx):
     """a position OPENED by a fill (first fill, or the remainder of a flip) must carry the estimate at the fill price"""
     fr = ctx.find(name="from", self_adt=POS, trait="std::convert::From")
@@ -285,4 +294,5 @@ RULES = [
     ("R3", "each arm of Position::update_from_trade refreshes the estimate at the fill price after its last write", r3),
     ("R4", "calculate_pnl_unrealised equals the documented estimate; argument roles at the call site", r4),
     ("R5", "engine and replica share the market-event entry point", r5),
+    ("R8", "the marking price is the newest one (= C09.R2); the opening fill sets the peak size the fee share divides by", r8),
 ]
